@@ -44,14 +44,18 @@ def counts_block():
     metas = [json.load(open(m)) for m in glob.glob(os.path.join(V, "seeded", "*", "meta.json"))]
     missed = len([m for m in metas if "MISSED" in str(m.get("caught_by", "")) or "NOT DETECTED" in str(m.get("caught_by", "")) or m.get("detected") is False])
     undet = len([m for m in metas if m.get("detected") is False])
+    import glob as _g
+    rmetas = [json.load(open(x)) for x in sorted(_g.glob("/verif/refactors/R*/meta.json"))]
     props = sorted({m.get("property") for m in metas})
     return ("Outcome of building it (details in §8): %d properties claimed, %d not applicable;\n"
             "**%d `fix:` commits** in `/repo` (each validated against the unedited 3151-test suite),\n"
             "**%d known findings** recorded by exact key, %d seeded regressions from independent\n"
             "sub-agents stored under `seeded/` covering %d properties (%d caught by the rules as they\n"
             "stood when the seed arrived, %d missed at first; %d of those remain undetected, the rest are\n"
-            "caught after strengthening — §9)."
-            % (len(man["checks"]), len(man.get("not_applicable", [])), nfix, len(kf["findings"]), len(metas), len(props), len(metas) - missed, missed, undet))
+            "caught after strengthening — §9). %d behaviour-preserving refactors from independent sub-agents are\n"
+            "stored under `refactors/` as false-alarm tests: %d are silent for every property and enforced,\n"
+            "%d still draw a report and are listed as known false alarms (§7, 12n)."
+            % (len(man["checks"]), len(man.get("not_applicable", [])), nfix, len(kf["findings"]), len(metas), len(props), len(metas) - missed, missed, undet, len(rmetas), len([m for m in rmetas if m.get("silent")]), len([m for m in rmetas if not m.get("silent")])))
 
 blocks = {"FIXED": fixed_block(), "FINDINGS": findings_block(), "SEEDS": seeds_block(), "COUNTS": counts_block()}
 p = os.path.join(V, "DESIGN.md")
